@@ -43,6 +43,14 @@ static json_t *doc;          /* what the parser returned (NULL = not JSON) */
 static json_t *doc_copy;     /* snapshot for the oracle                    */
 static unsigned parse_calls;
 static size_t parse_flags;
+#ifdef STRN_SYMBOLIC
+/* -DSTRN_SYMBOLIC: the counted-length entry points get an exactly sized buffer of symbolic length
+ * 0..STRN_MAX holding arbitrary bytes (NUL included): every byte the library reads must lie inside
+ * it, and the parser must be handed exactly those bytes */
+#define STRN_MAX 3
+static size_t parse_len;
+static char parse_bytes[STRN_MAX];
+#endif
 
 static vj_t *havoc_jwk(int allow_keys)
 {
@@ -83,6 +91,15 @@ json_t *vf_parse(unsigned call_no, const char *buf, size_t len, size_t flags)
 
 	parse_calls++;
 	parse_flags = flags;
+#ifdef STRN_SYMBOLIC
+	{
+		/* what reaches the parser: length and (reading them checks they are readable) the bytes */
+		unsigned i;
+		parse_len = len;
+		for (i = 0; i < STRN_MAX; i++)
+			parse_bytes[i] = (buf && i < len) ? buf[i] : 0;
+	}
+#endif
 #if SHAPE == 0
 	return doc = NULL;
 #elif SHAPE == 1
@@ -420,6 +437,16 @@ int main(void)
 	vf_cls = VF_CLS_SET | VF_CLS_ITEM;
 	real_jwks_item_add(set, old0);
 #endif
+#ifdef STRN_SYMBOLIC
+	size_t slen = nondet_size_t();
+	char *sbuf;
+	__CPROVER_assume(slen <= STRN_MAX);
+	sbuf = malloc(slen);                     /* exactly slen bytes: sbuf[-1] and sbuf[slen] are out of bounds */
+	__CPROVER_assume(sbuf != NULL);
+	for (i = 0; i < STRN_MAX; i++)
+		if (i < slen)
+			sbuf[i] = nondet_char();
+#endif
 #ifdef FAULT_K
 	vf_alloc_no = 0;                 /* concrete request index from here on */
 	vf_fail_at = FAULT_K;
@@ -428,14 +455,29 @@ int main(void)
 	ret = jwks_create(text);
 #elif ROUTE == 1
 	ret = jwks_load(set, text);
+#elif ROUTE == 2 && defined(STRN_SYMBOLIC)
+	ret = jwks_load_strn(set, sbuf, slen);
 #elif ROUTE == 2
 	ret = jwks_load_strn(set, text, 2);
 #elif ROUTE == 3
 	ret = jwks_load_fromfile(set, "f");
 #elif ROUTE == 4
 	ret = jwks_load_fromfp(set, (FILE *)&parse_calls);
+#elif defined(STRN_SYMBOLIC)
+	ret = jwks_create_strn(sbuf, slen);
 #else
 	ret = jwks_create_strn(text, 2);
+#endif
+#ifdef STRN_SYMBOLIC
+	{
+		unsigned same = parse_calls == 1 && parse_len == slen;
+		for (i = 0; i < STRN_MAX; i++)
+			if (i < slen && parse_bytes[i] != sbuf[i])
+				same = 0;
+		PROP(same, "C07: the counted-length entry points hand the parser exactly the caller's bytes (all of them, nothing else)");
+		REACH(slen == 0 && ret != NULL, "zero-length text");
+		REACH(slen == STRN_MAX && sbuf[STRN_MAX - 1] == '\0', "text whose last counted byte is NUL");
+	}
 #endif
 #ifdef FAULT_K
 	/* C17: under a fault the load either fails through its documented channel (NULL, or the
